@@ -227,7 +227,7 @@ def arity(cmd):
 
 @st.composite
 def unit_case(draw, cmds, max_rank=1, dtypes=("float64", "int64"), wild=False, mask_kind=None, min_cells=1,
-              max_cells=24, wide=False, same_dtype=False, two_distinct=False, tiny=False):
+              max_cells=24, wide=False, same_dtype=False, two_distinct=False, tiny=False, close=False):
     cmd = draw(st.sampled_from(list(cmds)))
     n = draw(arity(cmd))
     if max_rank == 1:
@@ -240,6 +240,9 @@ def unit_case(draw, cmds, max_rank=1, dtypes=("float64", "int64"), wild=False, m
     fuzzy = cmd in R.FUZZY_INPUT
     pool_src = lattice_floats(-1, 1) if fuzzy else lattice_floats()
     pool = draw(st.lists(pool_src, min_size=1, max_size=4))
+    if close and not fuzzy and draw(st.integers(0, 5)) == 0:
+        # distinct values that a tolerant comparison (numpy.isclose: rtol 1e-5, atol 1e-8) would take for equal
+        pool = draw(st.sampled_from([[250001.0, 250002.0, 250003.0], [1.0, 1.000001, 0.999999], [1048576.0, 1048577.0, 1048575.0, 2.0]]))
     arrays = []
     first_dtype = None
     for i in range(n):
